@@ -39,3 +39,29 @@ Theorem C05_flag_is_per_level_conjunction :
   flag_spec symlist krylist cf_j fc_j cf_bj fc_bj cffc_prefix d pre post L.
 Proof. exact: flag_is_per_level_conjunction. Qed.
 Print Assumptions C05_flag_is_per_level_conjunction.
+
+(* positive definiteness: for a symmetric positive semidefinite invertible level-0 matrix A, if the cycle's error
+   propagation e -> e - M A e strictly reduces the energy norm of every nonzero error (C02 proves it never increases
+   it; strictness is what the run-time oracle measures on built hierarchies), the V-/W-cycle matrix M is positive
+   definite: u^T M u > 0 for every u <> 0.  Together with C05_cycle_operator_symmetric this is the condition under
+   which conjugate gradients may be preconditioned with the cycle. *)
+Require Import PV.Algebra.Energy PV.Algebra.PrecondPD.
+Theorem C05_preconditioner_positive_definite :
+  forall (F : realFieldType) (w : bool) n (h : mhm F n),
+  let A := htop h in let M := Mmx w h in
+  A^T = A -> (forall x : 'cV[F]_n, 0 <= en A x) -> A \in unitmx ->
+  (forall v : 'cV[F]_n, v != 0 -> en A (v - M *m (A *m v)) < en A v) ->
+  forall u : 'cV[F]_n, u != 0 -> 0 < sc (u^T *m M *m u).
+Proof. move=> F w n h A M As Ap Au Hc u Hu. exact: (@precond_pd F n A M As Ap Au Hc u Hu). Qed.
+Print Assumptions C05_preconditioner_positive_definite.
+(* pointwise form without invertibility: wherever the cycle strictly reduces the energy of v, the form of M at A v
+   is positive *)
+Theorem C05_preconditioner_positive_on_range :
+  forall (F : realFieldType) n (A M : 'M[F]_n), A^T = A -> (forall x : 'cV[F]_n, 0 <= en A x) ->
+  forall v : 'cV[F]_n, en A (v - M *m (A *m v)) < en A v -> 0 < sc ((A *m v)^T *m M *m (A *m v)).
+Proof. move=> F n A M As Ap v Hv. exact: (@precond_pos F n A M As Ap v Hv). Qed.
+Print Assumptions C05_preconditioner_positive_on_range.
+(* non-vacuity: the strict-contraction hypothesis holds for A = M = 1 (exact solve, E = 0) *)
+Example C05_strict_contraction_satisfiable : forall (F : realFieldType) (v : 'cV[F]_1), v != 0 ->
+  en (1%:M) (v - (1%:M : 'M[F]_1) *m (1%:M *m v)) < en (1%:M) v.
+Proof. exact: pd_example. Qed.
